@@ -150,6 +150,87 @@ func nameCond(e ast.Expr) (name string, guarded bool, ok bool) {
 	return "", false, false
 }
 
+// tokenHelper: the call is of a function of the package that reads exactly one token from the decoder it is handed
+// and returns (token, err) [result 2] or (token, end-of-input, err) [result 3], the end of the input being reported
+// through the flag with a nil error; 0 otherwise. Shape: no loops, one call of Token(), every return after an error test
+// returns a non-nil error exactly when the test was `err != nil`.
+func (c *wCtx) tokenHelper(ce *ast.CallExpr) int {
+	id, ok := ce.Fun.(*ast.Ident)
+	if !ok {
+		if sel, isSel := ce.Fun.(*ast.SelectorExpr); isSel {
+			id = sel.Sel
+		} else {
+			return 0
+		}
+	}
+	return tokenHelperDecl(c.p.funcDecl("", id.Name))
+}
+
+func tokenHelperDecl(fd *ast.FuncDecl) int {
+	if fd == nil || fd.Body == nil || fd.Type.Results == nil {
+		return 0
+	}
+	nres := 0
+	var resTypes []string
+	for _, r := range fd.Type.Results.List {
+		k := len(r.Names)
+		if k == 0 {
+			k = 1
+		}
+		for i := 0; i < k; i++ {
+			resTypes = append(resTypes, exprStringDeep(r.Type))
+		}
+		nres += k
+	}
+	if nres != 2 && nres != 3 {
+		return 0
+	}
+	if resTypes[0] != "xml.Token" || resTypes[nres-1] != "error" || (nres == 3 && resTypes[1] != "bool") {
+		return 0
+	}
+	tokens, loops, bad := 0, 0, false
+	ast.Inspect(fd.Body, func(n ast.Node) bool {
+		switch x := n.(type) {
+		case *ast.ForStmt, *ast.RangeStmt:
+			loops++
+		case *ast.CallExpr:
+			if strings.HasSuffix(exprStringDeep(x.Fun), ".Token") {
+				tokens++
+			}
+		case *ast.IfStmt:
+			// if err == io.EOF { return _, true, nil }   /  if err != nil { return _, false, <not nil> }
+			be, ok := x.Cond.(*ast.BinaryExpr)
+			if !ok || len(x.Body.List) == 0 {
+				bad = true
+				return true
+			}
+			rs, ok := x.Body.List[len(x.Body.List)-1].(*ast.ReturnStmt)
+			if !ok || len(rs.Results) != nres {
+				bad = true
+				return true
+			}
+			last := exprStringDeep(rs.Results[nres-1])
+			switch {
+			case be.Op == token.EQL && exprStringDeep(be.Y) == "io.EOF":
+				if nres != 3 || last != "nil" || exprStringDeep(rs.Results[1]) != "true" {
+					bad = true
+				}
+			case be.Op == token.NEQ && exprStringDeep(be.Y) == "nil":
+				if last == "nil" || (nres == 3 && exprStringDeep(rs.Results[1]) != "false") {
+					bad = true
+				}
+			default:
+				bad = true
+			}
+		}
+		return true
+	})
+	if tokens != 1 || loops != 0 || bad {
+		return 0
+	}
+	return nres
+}
+
 func exprStringDeep(e ast.Expr) string {
 	switch t := e.(type) {
 	case *ast.Ident:
@@ -474,12 +555,13 @@ func genWalkers(repo string) (string, error) {
 	}
 	constStrings = p.stringConsts()
 	c := &wCtx{p: p, readers: map[string]bool{}}
+	curWalkPkg = p
 	var fds []*ast.FuncDecl
 	// the reader functions: those that are handed the decoder of the part being read, and the entry points that
 	// create that decoder and hand it to one of them (parseDocument).  A function that walks a decoder of its own
 	// without calling a reader function (helpers that look into other parts) is not part of this walk.
 	for _, fd := range p.allFuncs() {
-		if fd.Body != nil && isDecoderParam(fd) && fd.Name.Name != "MarshalXML" && fd.Name.Name != "UnmarshalXML" {
+		if fd.Body != nil && isDecoderParam(fd) && fd.Name.Name != "MarshalXML" && fd.Name.Name != "UnmarshalXML" && tokenHelperDecl(fd) == 0 {
 			c.readers[fd.Name.Name] = true
 			fds = append(fds, fd)
 		}
@@ -659,7 +741,7 @@ func genWalkers(repo string) (string, error) {
 			if !ok || len(as0.Rhs) != 1 {
 				break
 			}
-			if ce, ok := as0.Rhs[0].(*ast.CallExpr); ok && strings.HasSuffix(exprStringDeep(ce.Fun), ".Token") {
+			if ce, ok := as0.Rhs[0].(*ast.CallExpr); ok && (strings.HasSuffix(exprStringDeep(ce.Fun), ".Token") || c.tokenHelper(ce) != 0) {
 				break
 			}
 			if h, err := c.handlerOf([]ast.Stmt{as0}, where); err != nil || h.kind != "none" {
@@ -675,39 +757,72 @@ func genWalkers(repo string) (string, error) {
 			return "", fmt.Errorf("%s: the loop does not begin with token, err := decoder.Token()", where)
 		}
 		ce, ok := as.Rhs[0].(*ast.CallExpr)
-		if !ok || !strings.HasSuffix(exprStringDeep(ce.Fun), ".Token") || len(as.Lhs) != 2 || exprStringDeep(as.Lhs[1]) != "err" {
+		if !ok {
 			return "", fmt.Errorf("%s: the loop does not begin with token, err := decoder.Token()", where)
+		}
+		// the token is read by decoder.Token() itself, or by a function of the package that reads exactly one token and
+		// hands back (token, err) or (token, end of input, err)
+		errVar, eofVar := "", ""
+		switch {
+		case strings.HasSuffix(exprStringDeep(ce.Fun), ".Token") && len(as.Lhs) == 2:
+			errVar = exprStringDeep(as.Lhs[1])
+		default:
+			h := c.tokenHelper(ce)
+			if h == 0 || len(as.Lhs) != h {
+				return "", fmt.Errorf("%s: the loop does not begin with token, err := decoder.Token()", where)
+			}
+			errVar = exprStringDeep(as.Lhs[h-1])
+			if h == 3 {
+				eofVar = exprStringDeep(as.Lhs[1])
+			}
+		}
+		if errVar == "_" || errVar == "?" {
+			return "", fmt.Errorf("%s: the error of reading a token is dropped", where)
 		}
 		idx := 1
 		sawErrReturn := false
+		eofBody := func(is *ast.IfStmt) error {
+			if len(is.Body.List) != 1 {
+				return fmt.Errorf("%s: unexpected io.EOF handling", where)
+			}
+			switch x := is.Body.List[0].(type) {
+			case *ast.BranchStmt:
+				if x.Tok != token.BREAK {
+					return fmt.Errorf("%s: io.EOF is not handled by break or return", where)
+				}
+			case *ast.ReturnStmt:
+				// return nil / return x, nil: the end of the input ends the walk without an error
+				if len(x.Results) > 0 {
+					if id, ok := x.Results[len(x.Results)-1].(*ast.Ident); !ok || id.Name != "nil" {
+						return fmt.Errorf("%s: io.EOF returns an error", where)
+					}
+				}
+			default:
+				return fmt.Errorf("%s: io.EOF is not handled by break or return", where)
+			}
+			return nil
+		}
 		for idx < len(body) {
 			is, ok := body[idx].(*ast.IfStmt)
 			if !ok {
 				break
 			}
 			cond := is.Cond
+			if id, isID := cond.(*ast.Ident); isID && eofVar != "" && id.Name == eofVar {
+				if err := eofBody(is); err != nil {
+					return "", err
+				}
+				w.eofOK = true
+				idx++
+				continue
+			}
 			be, ok := cond.(*ast.BinaryExpr)
-			if !ok || exprStringDeep(be.X) != "err" {
+			if !ok || exprStringDeep(be.X) != errVar {
 				break
 			}
 			if be.Op == token.EQL && exprStringDeep(be.Y) == "io.EOF" {
-				if len(is.Body.List) != 1 {
-					return "", fmt.Errorf("%s: unexpected io.EOF handling", where)
-				}
-				switch x := is.Body.List[0].(type) {
-				case *ast.BranchStmt:
-					if x.Tok != token.BREAK {
-						return "", fmt.Errorf("%s: io.EOF is not handled by break or return", where)
-					}
-				case *ast.ReturnStmt:
-					// return nil / return x, nil: the end of the input ends the walk without an error
-					if len(x.Results) > 0 {
-						if id, ok := x.Results[len(x.Results)-1].(*ast.Ident); !ok || id.Name != "nil" {
-							return "", fmt.Errorf("%s: io.EOF returns an error", where)
-						}
-					}
-				default:
-					return "", fmt.Errorf("%s: io.EOF is not handled by break or return", where)
+				if err := eofBody(is); err != nil {
+					return "", err
 				}
 				w.eofOK = true
 			} else if be.Op == token.NEQ && exprStringDeep(be.Y) == "nil" {
@@ -741,6 +856,54 @@ func genWalkers(repo string) (string, error) {
 							}
 							ws = append(ws, w)
 							continue
+						}
+					}
+				}
+			}
+		}
+		// or in one statement: if x, ok := token.(xml.StartElement); ok && <condition on the name> { ... }
+		if idx == len(body)-1 && !w.depth {
+			if is, ok := body[idx].(*ast.IfStmt); ok && is.Else == nil {
+				if as2, ok := is.Init.(*ast.AssignStmt); ok && len(as2.Lhs) == 2 && len(as2.Rhs) == 1 {
+					if ta, ok := as2.Rhs[0].(*ast.TypeAssertExpr); ok && ta.Type != nil && exprStringDeep(ta.Type) == "xml.StartElement" {
+						okName := exprStringDeep(as2.Lhs[1])
+						if be, ok := is.Cond.(*ast.BinaryExpr); ok && be.Op == token.LAND {
+							// the leftmost conjunct must be the ok flag
+							var conj []ast.Expr
+							var flat func(e ast.Expr)
+							flat = func(e ast.Expr) {
+								if b, ok := e.(*ast.BinaryExpr); ok && b.Op == token.LAND {
+									flat(b.X)
+									flat(b.Y)
+									return
+								}
+								conj = append(conj, e)
+							}
+							flat(be)
+							if len(conj) >= 2 && exprStringDeep(conj[0]) == okName {
+								rest := conj[1]
+								for _, e := range conj[2:] {
+									rest = &ast.BinaryExpr{X: rest, Op: token.LAND, Y: e}
+								}
+								synth := &ast.IfStmt{Cond: rest, Body: is.Body}
+								before := len(w.cases)
+								if err := c.casesOf([]ast.Stmt{synth}, w, where); err != nil {
+									return "", err
+								}
+								// here no switch stands between the statement and the loop: a plain break leaves the loop
+								if n := len(is.Body.List); n > 0 {
+									if br, ok := is.Body.List[n-1].(*ast.BranchStmt); ok && br.Tok == token.BREAK && br.Label == nil {
+										for i := before; i < len(w.cases); i++ {
+											w.cases[i].h.stop = true
+										}
+									}
+								}
+								if !w.eofOK {
+									return "", fmt.Errorf("%s: the loop never returns on an end element", where)
+								}
+								ws = append(ws, w)
+								continue
+							}
 						}
 					}
 				}
@@ -926,12 +1089,17 @@ func genWalkers(repo string) (string, error) {
 	return b.String(), nil
 }
 
+var curWalkPkg *pkgSrc
+
 // callsToken: the function pulls tokens from a decoder it created itself (the entry point parseDocument)
 func callsToken(fd *ast.FuncDecl) bool {
 	found := false
 	ast.Inspect(fd.Body, func(n ast.Node) bool {
 		if ce, ok := n.(*ast.CallExpr); ok {
 			if strings.HasSuffix(exprStringDeep(ce.Fun), ".Token") && len(ce.Args) == 0 {
+				found = true
+			}
+			if id, ok := ce.Fun.(*ast.Ident); ok && curWalkPkg != nil && tokenHelperDecl(curWalkPkg.funcDecl("", id.Name)) != 0 {
 				found = true
 			}
 		}
